@@ -386,6 +386,13 @@ func refusedThenCommitScript(seed int64, wtmax uint64) ([]Op, int) {
 	s.add(Op{Proc: "write", H: fmt.Sprintf("@%d", g), Off: 220*4096 + 7, Cnt: wtmax, Stable: 2, Data: pat(wtmax, 5)})
 	s.add(Op{Proc: "commit", H: fh})
 	s.add(Op{Proc: "getattr", H: fh})
+	// unstable data pending, then a request on that very file that is refused (its transaction aborts and the cached
+	// inode is dropped), then a good COMMIT: the data must be durable from that COMMIT on
+	s.add(Op{Proc: "write", H: fh, Off: 14000, Cnt: 3000, Stable: 0, Data: pat(3000, int(seed%100)+9)})
+	s.add(Op{Proc: "commit", H: fh, Off: 1 << 40, Cnt: 10})
+	s.add(Op{Proc: "write", H: fh, Off: 0, Cnt: 50, Stable: 0, Data: pat(7, 1)})
+	s.add(Op{Proc: "commit", H: fh})
+	s.add(Op{Proc: "getattr", H: fh})
 	return s.ops, focus
 }
 
